@@ -93,6 +93,7 @@ class Sim(object):
         self.isolated_long = set()
         self.rejoined_after_isolation = False
         self.cut_epoch = collections.Counter()
+        self.reach_seen = {}
         self.cut_since = {}
         self.ro_terms_seen = {}
         self.ro_rejoined_after_leader_change = False
@@ -1142,6 +1143,13 @@ class Sim(object):
             # C20 bookkeeping: isolation episodes, has-quorum indicator
             if self.ro and obj._isLeader() and self.cut_off(name) and any(self.is_ro(y) for y in self.net.view.get(name, {})):
                 self.ro_with_minority = True
+            # a cut-off episode ends when the set of voters the node can reach changes: a leader that is never connected
+            # to a majority at one time can still collect a majority of acknowledgements from changing minorities
+            mem_ = self.member_set(name)
+            reach_ = frozenset(v for v in mem_ if v != name and v in self.nodes and frozenset((name, v)) not in self.blocked)
+            if self.reach_seen.get(name) != reach_:
+                self.reach_seen[name] = reach_
+                self.cut_epoch[name] += 1
             if self.cut_off(name):
                 now = CLOCK.t.get(name, core.EPOCH)
                 if name not in self.cut_since:
